@@ -72,9 +72,48 @@ OK_es(ln) == ln.p # <<>> => (ln.es = 1 /\ ln.eo = <<>>)
 OK_ru(ln) == ln.st = 1 => ln.ru = 1
 OK_cp(ln) == ln.st = 1 => ln.cp = 1
 
-\* ---- a line
-KF(ln) == ({"F9"} \cap (IF F9(ln.p) THEN Deviations ELSE {})) \cup ({"F10"} \cap (IF F10(ln.p) THEN Deviations ELSE {}))
+KFp(p) == ({"F9"} \cap (IF F9(p) THEN Deviations ELSE {})) \cup ({"F10"} \cap (IF F10(p) THEN Deviations ELSE {}))
 Count(reg) == TLCSet(reg, TLCGet(reg) + 1)
+Report(n, ln, bad, unexcused, kf) == PrintT("@@" \o ToJson([i |-> n, k |-> ln.k, p |-> ln.p, bad |-> bad, unexcused |-> unexcused, kf |-> kf, tag |-> ln.tag]))
+
+\* ---- SegmentedStringMatcher lines (k = "s"): p, hard (separator listed twice), st, u, ru, m0 + ng0 = Match(subject, FALSE), m1 + ng1 = Match(subject, TRUE)
+SegSubj == Log[1].segsubjects
+NSS     == Len(SegSubj)
+SubTok  == [h \in BOOLEAN |-> [j \in 1..NSS |-> SegTokens(SegSubj[j], cSlash, h)]]          \* computed once per process
+SubDef  == [h \in BOOLEAN |-> [j \in 1..NSS |-> SegDefinite(SegSubj[j], cSlash, h)]]
+TokSet  == UNION {{SubTok[h][j][n] : n \in 1..Len(SubTok[h][j])} : h \in BOOLEAN, j \in 1..NSS}
+SegObserved(ng, mset, j) == (j \in mset) # (ng = 1)
+BadSeg(ln) ==
+  LET p == ln.p  hard == ln.hard = 1
+      segs == SegOfPattern(p, cSlash, hard)
+      tops == [n \in 1..Len(segs) |-> ParseTop(segs[n])]
+      tm   == [n \in 1..Len(segs) |-> [t \in TokSet |-> MatchTop(tops[n], t)]]            \* every segment on every token, once
+      \* the oracle SegMatch3 of Wildcard.tla, with its per-segment answers looked up in tm
+      O(j, pf) == IF ~SubDef[hard][j] THEN "E"
+                  ELSE LET toks == SubTok[hard][j] IN SegCombine(SegNeg(p), Len(segs), Len(toks), pf, [n \in 1..Len(segs) |-> IF n <= Len(toks) THEN tm[n][toks[n]] ELSE "F"])
+      m0 == {ln.m0[y] : y \in 1..Len(ln.m0)}  m1 == {ln.m1[y] : y \in 1..Len(ln.m1)}
+      o0 == [j \in 1..NSS |-> O(j, FALSE)]  o1 == [j \in 1..NSS |-> O(j, TRUE)]
+      ok0 == \A j \in 1..NSS : o0[j] = "E" \/ ((o0[j] = "T") <=> SegObserved(ln.ng0, m0, j))
+      ok1 == \A j \in 1..NSS : o1[j] = "E" \/ ((o1[j] = "T") <=> SegObserved(ln.ng1, m1, j))
+      \* IsPatternUnique: "true iff this pattern specifies exactly one possible string (ie the pattern is just plain old text ...)": plain text must be
+      \* unique; "unique" must not be claimed when subjects with two different token sequences match (strings that differ only in how the
+      \* separators are written - a//b for a/b - are the same sequence of segments: nothing is required about them)
+      MT == {SubTok[hard][j] : j \in {y \in 1..NSS : o0[y] = "T"}}
+      plain == ~SegNeg(p) /\ \A n \in 1..Len(segs) : SurelyPlainTop(tops[n])
+      oku == IF plain THEN ln.u = 1 ELSE (ln.u = 1 => (~SegNeg(p) /\ Cardinality(MT) <= 1))
+  IN IF ~SegJudged(p, cSlash, hard) THEN {}
+     ELSE (IF ok0 THEN {} ELSE {"m0"}) \cup (IF ok1 THEN {} ELSE {"m1"}) \cup (IF ln.st = 1 THEN {} ELSE {"st"}) \cup (IF oku THEN {} ELSE {"u"})
+SegLineOK(ln) ==
+  LET kf  == KFp(ln.p)
+      bp  == IF kf = {} THEN BadSeg(ln) ELSE {}
+      bad == bp \cup (IF ln.st = 1 /\ ln.ru # 1 THEN {"ru"} ELSE {})
+  IN /\ Count(1)
+     /\ IF ~SegJudged(ln.p, cSlash, ln.hard = 1) THEN Count(3) ELSE IF kf # {} THEN Count(4) ELSE (Count(2) /\ TLCSet(6, TLCGet(6) + 2 * NSS))
+     /\ (bad # {} => (Count(7) /\ Report(i, ln, bad, bad, kf)))
+     /\ bad = {}
+
+\* ---- a line
+KF(ln) == KFp(ln.p)
 
 BadPattern(ln) ==      \* names of the recorded answers about p as a pattern that the documentation does not allow
   LET top  == ParseTop(ln.p)
@@ -87,11 +126,10 @@ BadPattern(ln) ==      \* names of the recorded answers about p as a pattern tha
 BadString(ln) == (IF OK_h(ln) THEN {} ELSE {"h"}) \cup (IF OK_r(ln) THEN {} ELSE {"r"}) \cup (IF OK_ru(ln) THEN {} ELSE {"ru"}) \cup (IF OK_cp(ln) THEN {} ELSE {"cp"})
 BadEscape(ln) == (IF OK_e(ln) THEN {} ELSE {"e"}) \cup (IF OK_es(ln) THEN {} ELSE {"es"})
 
-Report(n, ln, bad, unexcused, kf) == PrintT("@@" \o ToJson([i |-> n, p |-> ln.p, bad |-> bad, unexcused |-> unexcused, kf |-> kf, tag |-> ln.tag]))
 
 \* registers (one TLC worker per process): 1 lines, 2 judged as patterns, 3 not judged: outside the documented syntax,
 \* 4 not judged: F9 / F10 predicate, 5 escape not judged: F11 predicate, 6 subject evaluations, 7 lines with a disagreement
-LineOK ==
+LineOK == IF Log[i].k = "s" THEN SegLineOK(Log[i]) ELSE
   LET ln  == Log[i]
       kf  == KF(ln)
       kfe == IF F11(ln.p) THEN {"F11"} \cap Deviations ELSE {}
